@@ -188,8 +188,63 @@ def check_nodes(item):
     return obs
 
 
+def check_collect(_item):
+    """collect/tables, collect/fields: tables_ / fields_() are the set of ALL Table / Field nodes (find_ over
+    nodes_), not a derivative of another, lossy collection; collect/find: find_ filters nodes_() by isinstance"""
+    from ..values import Fn, MapPart, PreSeq
+    r = repo()
+    ci = r.cls("terms.Term")
+    obs = []
+    for name, want in (("tables_", "Table"), ("fields_", "Field")):
+        fi = ci.methods[name]
+        run = run_function(fi, ci, contract_self={"find_", "nodes_", "get_sql"})
+        ok, why = not run.error, run.error or ""
+        for o in run.outcomes:
+            if o.status != "return":
+                ok, why = False, f"ends with {o.status}"
+                continue
+            calls = [e for e in o.state.effects if e.kind == "call"]
+            finds = [e for e in calls if e.method == "find_"]
+            others = [e.method for e in calls if e.method not in ("find_",)]
+            v = o.value
+            parts = o.state.heap[v.oid].parts if isinstance(v, Obj) and v.oid in o.state.heap else None
+            good = len(finds) == 1 and not others and finds[0].args and isinstance(finds[0].args[0], Fn) and \
+                getattr(finds[0].args[0].target, "name", "") == want and parts is not None and len(parts) == 1 and \
+                isinstance(parts[0], PreSeq) and parts[0].path == "self.find_()" and \
+                o.state.heap[v.oid].kind == "set"
+            if not good:
+                ok, why = False, (f"{name} is not set(self.find_({want})): calls {[e.method for e in calls]}, "
+                                  f"result {parts!r}")
+        obs.append(Obligation(PROP, f"terms.Term.{name}|collect/{name.strip('_')}", "collect/complete",
+                              fi.short, PROVED if ok else REFUTED,
+                              detail=f"{name} == set(self.find_({want})): every {want} node reachable through nodes_()",
+                              reason=why, witness={"family": "call", "oracle": "tables_complete", "args": []}))
+    fi = r.cls("terms.Node").methods["find_"]
+    run = run_function(fi, r.cls("terms.Node"), contract_self={"nodes_"}, overrides={"type": "any"})
+    ok, why = not run.error, run.error or ""
+    for o in run.outcomes:
+        if o.status != "return":
+            continue
+        calls = [e.method for e in o.state.effects if e.kind == "call"]
+        v = o.value
+        parts = o.state.heap[v.oid].parts if isinstance(v, Obj) and v.oid in o.state.heap else ()
+        good = calls == ["nodes_"] and len(parts) == 1 and isinstance(parts[0], MapPart) and \
+            len([a for a in parts[0].alts if a[1]]) == 1
+        if good:
+            g, items = [a for a in parts[0].alts if a[1]][0]
+            good = items == (parts[0].elem,) and "isinstance!" in str(g)
+        if not good:
+            ok, why = False, f"find_ is not [n for n in self.nodes_() if isinstance(n, type)]: {parts!r}"
+    obs.append(Obligation(PROP, "terms.Node.find_|collect/find", "collect/complete", fi.short,
+                          PROVED if ok else REFUTED, detail="find_(T) == [n for n in nodes_() if isinstance(n, T)]",
+                          reason=why, witness={"family": "call", "oracle": "tables_complete", "args": []}))
+    return obs
+
+
 def _dispatch(item):
     kind, arg = item
+    if kind == "collect":
+        return check_collect(arg)
     if kind == "eq":
         return check_eq(arg)
     if kind == "dedup":
@@ -211,6 +266,7 @@ def generate(tier="quick"):
             seen.add(sig)
             items.append(("eq", ci.qual))
     items.append(("dedup", None))
+    items.append(("collect", None))
     term = r.cls("terms.Term")
     done = set()
     for ci in sorted(r.subclasses(term), key=lambda c: c.qual):
